@@ -33,9 +33,10 @@ type Script struct {
 	Values string `json:"values"` // "bytes" | "nodes": mutable byte values or real trie nodes
 	Ops    []Op   `json:"ops"`
 	// C08: tasks and schedule (see sched.go)
-	Tasks    [][]Op `json:"tasks,omitempty"`
-	Schedule []int  `json:"schedule,omitempty"`
-	Strategy string `json:"strategy,omitempty"`
+	Tasks     [][]Op `json:"tasks,omitempty"`
+	Schedule  []int  `json:"schedule,omitempty"`
+	Strategy  string `json:"strategy,omitempty"`
+	SchedSeed uint64 `json:"sched_seed,omitempty"`
 }
 
 func (s *Script) Len() int {
@@ -230,6 +231,8 @@ type mblock struct {
 	pre       map[string]entry // block-level uncommitted
 	writes    map[string]entry // frozen at commit
 	bc        *statecache.BlockCache
+	index     int
+	planned   map[string]entry // C08: what the block will have written once committed
 }
 
 type mtxn struct {
